@@ -39,6 +39,8 @@ struct device_data_s {
 	bool          owned;
 	device_path   paths[2];
 	nni_reap_node reap;
+	nni_aio      *fini_user; // user aio to complete once shut down
+	nni_task      fini_task; // shuts the device down (see device_cb)
 };
 
 static void device_fini(void *);
@@ -60,6 +62,7 @@ device_fini(void *arg)
 	for (int i = 0; i < d->num_paths; i++) {
 		nni_aio_fini(&d->paths[i].aio);
 	}
+	nni_task_fini(&d->fini_task);
 	NNI_FREE_STRUCT(d);
 }
 
@@ -73,6 +76,23 @@ device_close(device_data *d)
 	nni_sock_close_device(d->paths[0].src);
 	if (d->paths[0].dst != d->paths[0].src) {
 		nni_sock_close_device(d->paths[0].dst);
+	}
+}
+
+static void
+device_shutdown(void *arg)
+{
+	device_data *d    = arg;
+	nni_aio     *user = d->fini_user;
+	nng_err      err  = d->rv;
+
+	device_close(d);
+	// Queue the reap before completing the user's aio: once that
+	// completes the application may call nng_fini(), whose drain must
+	// see the pending reap.  (d must not be used after this.)
+	nni_reap(&device_reap, d);
+	if (user != NULL) {
+		nni_aio_finish_error(user, err);
 	}
 }
 
@@ -133,16 +153,15 @@ device_cb(void *arg)
 			nni_aio *user = d->user;
 			nng_err  err  = d->rv;
 
-			d->user = NULL;
+			d->user      = NULL;
+			d->fini_user = user;
+			d->rv        = err;
 			nni_mtx_unlock(&device_mtx);
-			device_close(d);
-			// Queue the reap before completing the user's aio:
-			// once that completes the application may call
-			// nng_fini(), whose drain must see the pending reap.
-			nni_reap(&device_reap, d);
-			if (user != NULL) {
-				nni_aio_finish_error(user, err);
-			}
+			// We may be running inside a pipe's receive callback
+			// (synchronous completion).  Closing the sockets here
+			// would wait for that very callback to return, so the
+			// shutdown runs as a task of its own.
+			nni_task_dispatch(&d->fini_task);
 			return;
 		}
 		nni_mtx_unlock(&device_mtx);
@@ -247,6 +266,7 @@ device_init(device_data **dp, nni_sock *s1, nni_sock *s2)
 	}
 	d->num_paths = num_paths;
 	d->owned     = false;
+	nni_task_init(&d->fini_task, NULL, device_shutdown, d);
 	*dp          = d;
 	return (0);
 }
